@@ -128,26 +128,86 @@ SOURCE_METHODS = {"DFS::CatalogEntry::name", "DFS::CatalogEntry::directory", "DF
 CLEAN_METHODS = {"size", "length", "empty", "compare", "find", "rfind", "c_str_len", "capacity"}
 
 
+def _slash_free(fn, g, e, at):
+    """The character expression e can never be '/' when evaluated at node `at`."""
+    e = strip_all(e)
+    if e is None:
+        return False
+    v = folded(e)
+    if v is not None:
+        return v != ord("/")
+    if e.get("k") == "ConditionalOperator":
+        c = strip_all(e["c"][0])
+        a, b = strip_all(e["c"][1]), strip_all(e["c"][2])
+        if c.get("k") == "BinaryOperator" and c.get("op") in ("==", "!="):
+            l, r = strip_all(c["c"][0]), strip_all(c["c"][1])
+            var = l if folded(r) == ord("/") else (r if folded(l) == ord("/") else None)
+            if var is not None:
+                same_a = flow.same_expr(a, var)
+                same_b = flow.same_expr(b, var)
+                if c["op"] == "==":       # var == '/' ? X : var
+                    return same_b and _slash_free(fn, g, a, at)
+                return same_a and _slash_free(fn, g, b, at)  # var != '/' ? var : X
+        return _slash_free(fn, g, a, at) and _slash_free(fn, g, b, at)
+    # guarded by a dominating test  e != '/'
+    for l, rel, r in (g.cmps(at) or []):
+        if rel == "!=" and flow.same_expr(l, e) and folded(r) == ord("/"):
+            return True
+    return False
+
+
 def _sanitiser_functions(prog):
-    """Functions returning a string from which '/' has been removed: they apply
-    std::replace(x.begin(), x.end(), '/', c) with c != '/' to the value they return."""
+    """Functions returning a string that cannot contain '/': the returned local is
+    either a copy of the argument to which std::replace(.., '/', c) (c != '/') is
+    applied, or is built only from characters proven not to be '/'."""
     out = set()
     for f in prog.functions.values():
+        if "basic_string" not in (f.raw.get("ret") or ""):
+            continue
         rets = [n for n in f.walk() if n.get("k") == "ReturnStmt" and n.get("c")]
         if len(rets) != 1:
             continue
         rv = strip_all(rets[0]["c"][0])
-        while rv is not None and rv.get("k") == "CXXConstructExpr" and len(rv.get("c", [])) == 1:
-            rv = strip_all(rv["c"][0])
-        if rv is None or rv.get("k") != "DeclRefExpr":
+        if rv is None or rv.get("k") != "DeclRefExpr" or rv.get("dk") != "Var":
             continue
+        rid = rv.get("d")
+        replaced = False
         for n in f.walk():
             if n.get("k") == "CallExpr" and notpl(n.get("q") or "") == "std::replace":
                 a = call_args(n)
                 if len(a) == 4 and folded(a[2]) == ord("/") and folded(a[3]) not in (None, ord("/")) and \
-                        all(any(x.get("k") == "DeclRefExpr" and x.get("d") == rv.get("d") for x in walk(a[i])) for i in (0, 1)):
-                    # nothing appended to the result after the replace
-                    out.add(f.key)
+                        all(any(x.get("k") == "DeclRefExpr" and x.get("d") == rid for x in walk(a[i])) for i in (0, 1)):
+                    replaced = True
+        # every other way content gets into the result must be slash-free
+        g = None
+        ok = True
+        tainted_init = False
+        for n in f.walk():
+            if n.get("k") == "VarDecl" and n.get("d") == rid and n.get("c"):
+                init = strip_all(n["c"][0])
+                if init is not None and not (init.get("k") in ("CXXConstructExpr",) and not init.get("c")):
+                    tainted_init = True     # constructed from something (e.g. the parameter)
+            if n.get("k") == "CXXMemberCallExpr":
+                cal = strip(n["c"][0])
+                if cal and cal.get("c") and strip_all(cal["c"][0]).get("d") == rid:
+                    nm = cal.get("n")
+                    if nm in ("push_back",):
+                        g = g or flow.Guards(f)
+                        if not _slash_free(f, g, n["c"][1], n):
+                            ok = False
+                    elif nm in ("append", "assign", "insert", "operator+=", "replace"):
+                        ok = False
+            if n.get("k") == "CXXOperatorCallExpr" and n.get("op") in ("+=", "=") and len(n["c"]) == 3 and \
+                    strip_all(n["c"][1]).get("d") == rid:
+                g = g or flow.Guards(f)
+                if not _slash_free(f, g, n["c"][2], n):
+                    ok = False
+        if replaced and ok:
+            out.add(f.key)
+        elif ok and not tainted_init and not replaced:
+            # built from scratch out of slash-free characters only
+            if any(n.get("k") == "CXXMemberCallExpr" and (strip(n["c"][0]) or {}).get("n") == "push_back" for n in f.walk()):
+                out.add(f.key)
     return out
 
 
